@@ -6,6 +6,7 @@ import (
 	"os"
 	"runtime/debug"
 	"runtime/pprof"
+	"sort"
 	"strings"
 
 	"golang.org/x/tools/go/ssa"
@@ -51,6 +52,9 @@ func cmdRun(args []string) {
 	if w := os.Getenv("VERIF_WORKERS"); w != "" {
 		fmt.Sscan(w, &e.workers)
 	}
+	if w := os.Getenv("VERIF_MAXPATHS"); w != "" {
+		fmt.Sscan(w, &e.maxPaths)
+	}
 	for _, k := range strings.Split(os.Getenv("VERIF_OPEN"), ",") {
 		if k != "" {
 			e.openKF[k] = true
@@ -71,7 +75,11 @@ func cmdRun(args []string) {
 		pprof.StartCPUProfile(f)
 		defer pprof.StopCPUProfile()
 	}
-	opts := ExploreOpts{MaxViolationsPerLabel: 1, SchedChoice: os.Getenv("VERIF_SCHED") != ""}
+	mv := 1
+	if w := os.Getenv("VERIF_MAXVIOL"); w != "" {
+		fmt.Sscan(w, &mv)
+	}
+	opts := ExploreOpts{MaxViolationsPerLabel: mv, SchedChoice: os.Getenv("VERIF_SCHED") != ""}
 	if vf := os.Getenv("VERIF_VECTOR"); vf != "" {
 		data, err := os.ReadFile(vf)
 		if err != nil {
@@ -91,6 +99,22 @@ func cmdRun(args []string) {
 		}
 	}
 	hr := e.Explore(fn, opts)
+	if debugDecisions {
+		type kv struct {
+			k string
+			v int
+		}
+		var l []kv
+		for k, v := range forkSites {
+			l = append(l, kv{k, v})
+		}
+		sort.Slice(l, func(i, j int) bool { return l[i].v > l[j].v })
+		for i, x := range l {
+			if i < 25 {
+				fmt.Fprintf(os.Stderr, "FORKS %6d %s\n", x.v, x.k)
+			}
+		}
+	}
 	for _, o := range hr.Observes {
 		fmt.Fprintf(os.Stderr, "OBSERVE %s = %s\n", o.Label, strings.Join(o.Vals, " "))
 	}
@@ -104,7 +128,7 @@ func cmdRun(args []string) {
 		"paths": hr.Paths, "steps": hr.Steps, "outcomes": hr.Outcomes, "inconclusive": hr.Inconclusive,
 		"asserts_ok": hr.AssertsOK, "reached": keysOf(hr.Reached), "solver_queries": hr.Solver.Queries,
 		"solver_s": hr.Solver.Time.Seconds(), "wall_s": hr.Wall.Seconds(), "load_s": e.loadTime.Seconds(),
-		"violations": hr.Violations, "known": hr.KnownHits, "funcs": len(hr.Funcs),
+		"violations": hr.Violations, "known": hr.KnownHits, "funcs": len(hr.Funcs), "samples": hr.Samples, "sched_choices": hr.SchedChoices, "timers": hr.TimersFired,
 	}
 	b, _ := json.MarshalIndent(out, "", " ")
 	fmt.Println(string(b))
